@@ -130,7 +130,7 @@ class DensityFromOrbs(DensityBase):
         fr = Frame(dm=dm, phi=phi)
         out = dens.evaluate_density_using_evaluated_orbs(dm, phi)
         fr.check(M, "density_from_orbs", out)
-        M.true("density_from_orbs/shape", tuple(out.shape) == (npts,), str(out.shape))
+        out = M.shaped("density_from_orbs/shape", out, (npts,))
         sdm, sphi = M.to_spec(dm), M.to_spec(phi)
         for n in range(npts):
             M.eq("density_from_orbs/out" + tag((n,)), out[n], D(M, sdm, sphi, sphi, n))
@@ -323,9 +323,9 @@ class GradLapHess(DensityBase):
             stub.check_calls(M, fname, basis, points, transform)
         g, lap, h = res["evaluate_density_gradient"], res["evaluate_density_laplacian"], res["evaluate_density_hessian"]
         N = self.npts
-        M.true("gradient/shape", tuple(g.shape) == (N, 3), str(g.shape))
-        M.true("laplacian/shape", tuple(lap.shape) == (N,), str(lap.shape))
-        M.true("hessian/shape", tuple(h.shape) == (N, 3, 3), str(h.shape))
+        g = M.shaped("gradient/shape", g, (N, 3))
+        lap = M.shaped("laplacian/shape", lap, (N,))
+        h = M.shaped("hessian/shape", h, (N, 3, 3))
         for n in range(N):
             tr = M.SF.num(0)
             for i in range(3):
